@@ -46,7 +46,7 @@ def expected_pages(tr):
 
 
 def run(rep, model, tier, seed, broken=()):
-    n = 140 if tier == "quick" else 5000
+    n = 300 if tier == "quick" else 5000
     rng = core.rng_for(seed, "C15")
     rep.coverage["rule"] = ("generated trees x pattern sets (0..7 patterns: bare names, dir/, *.ext, **/x, a/**/b, "
                             "name globs, several patterns matching adjacent siblings, patterns matching every CMake file "
